@@ -1,11 +1,14 @@
 import AcraModel.Keystore.CrashLemmas
 import AcraModel.Keystore.RefineCrash
+import AcraModel.Keystore.ImportLemmas
+import AcraModel.Keystore.RotateTool
 /-!
 # C08 — a crash or I/O failure during a keystore write never loses or corrupts keys
 
 Property theorems only. The models of the write operations as lists of storage / back-end calls and
-their execution under faults are in `AcraModel/Keystore/{V1,Calls}.lean`; helper lemmas in
-`CrashLemmas.lean`.
+their execution under faults are in `AcraModel/Keystore/{V1,Calls,CallsImport}.lean` (generate, rotate,
+destroy; import, migration, kept ring handles) and `RotateTool.lean` (the key-rotation tool); helper lemmas
+in `CrashLemmas.lean`, `RefineCrash.lean`, `ImportLemmas.lean`.
 -/
 namespace AcraModel.Props.C08
 open AcraModel AcraModel.Keystore Generated
@@ -210,6 +213,137 @@ theorem v2_first_generation_counterexample :
     let cut := V2.init.stepF ⟨.ca, 3⟩ (.gen ⟨.al, 0⟩)
     cut.2.2 = .crash ∧ cut.1.rings ⟨.al, 0⟩ = some Ring.empty ∧ (cut.1.step .list).2 = .err := by decide +kernel
 
+/-! ## import (v1 `KeyBackuper.Import`, v2 `ImportKeyRings`, v1→v2 migration `ImportKeyFileV1`) -/
+
+/-- `KeyBackuper.Import` writes every key file through a temporary file that is renamed over the target,
+and removes the temporary when the write or the rename fails (the model's `importFileCalls` and the
+clean-up in `X1.importFile`). -/
+theorem fact_v1_import_order :
+    KeystoreCrash.v1ImportCalls =
+      ["Import.MkdirAll", "Import.TempFile", "Import.WriteFile", "Import.<cleanup>", "Import.Rename", "Import.<cleanup>"] := by decide
+
+/-- **import_atomic_per_key (v1).** For every cache size, every history `h`, every bundle (any list of
+key files, in any order, with repetitions) and every fault (error, crash before/after, torn write) at any
+storage call of `KeyBackuper.Import`: no history directory changes, and every current key file – imported
+or not – is exactly what it was or completely the key the bundle holds for it. So every key readable
+before reads the same unless the bundle replaces it, and each imported key is absent/old or complete –
+never half-written. (On the pinned tree `Import` wrote the files in place and a torn write left a
+truncated key under its final name; repaired, repo-patches/51.) -/
+theorem import_atomic_per_key (c : Int) (h : List Op) (ft : Fault) (files : List FileId) :
+    let st := ((V1.init c).run h).1
+    let fs' := (st.importF ft files).1.fs
+    fs'.old = st.fs.old ∧
+      ∀ f, fs'.cur f = st.fs.cur f ∨ (f ∈ files ∧ fs'.cur f = some (.full (st.count f.slot + 1))) := by
+  intro st fs'
+  exact X1.importFiles_atomic ft (fun f => .full (st.count f.slot + 1)) files ⟨st, [], 0, .ok, false⟩
+
+/-- **import_atomic_per_key (v2).** For every history, every bundle of rings, both delegates (refuse /
+overwrite an existing ring) and every fault at any back-end call of `ImportKeyRings`: every ring – imported
+or not – is exactly what it was, or completely the imported ring, or (it did not exist before) the empty
+ring that `openKeyRing` creates before the keys are installed. No ring ever holds a part of an import. -/
+theorem import_atomic_per_key_v2 (h : List Op) (ft : Fault) (ow : Bool) (slots : List Slot) :
+    let st := (V2.init.run h).1
+    let st' := (st.importF ft ow slots).1
+    ∀ s, st'.rings s = st.rings s ∨
+      (s ∈ slots ∧ (st'.rings s = some (oneKeyRing (st.count s + 1)) ∨ (st.rings s = none ∧ st'.rings s = some Ring.empty))) := by
+  intro st st' s
+  exact X2.importRings_atomic ft ow (fun s => oneKeyRing (st.count s + 1)) slots ⟨st, [], 0, .ok, false⟩ s
+
+def hm1 : Slot := ⟨.hm, 1⟩
+
+/-- **import_not_atomic_as_a_whole_counterexample.** Honestly stated: an import of several keys is a
+sequence of per-key writes, it is NOT atomic as a whole, in either format. v1: crash right after the
+`Rename` of the first of two files (call 3) – the first key is imported, the second absent. v2: crash after
+the last call of the first ring (call 12: read phase 0–2, ring creation 3–7, key installation 8–12) – the
+first ring is imported, the second missing. (A re-run of the import completes it: v1 overwrites; v2 needs
+the overwriting delegate for the rings that already arrived.) -/
+theorem import_not_atomic_as_a_whole_counterexample :
+    (let cut := (V1.init (-1)).importF ⟨.ca, 3⟩ [privFile ss0, privFile hm1]
+     cut.2.2.2 = .crash ∧ cut.1.fs.cur (privFile ss0) = some (.full 1) ∧ cut.1.fs.cur (privFile hm1) = none) ∧
+    (let cut := V2.init.importF ⟨.ca, 12⟩ false [ss0, hm1]
+     cut.2.2 = .crash ∧ cut.1.rings ss0 = some (oneKeyRing 1) ∧ cut.1.rings hm1 = none) := by decide +kernel
+
+/-- **import_v2_empty_ring_counterexample** (known finding `v2:ring-without-current-key`). The third case
+of `import_atomic_per_key_v2` happens: crash the import of a new ring after `openKeyRing` (call 7) – the
+empty ring stays behind, `ListKeys` fails for the whole store, and a repeated import with the default
+delegate is refused (`ErrKeyRingExists`) although no key of the ring ever arrived. -/
+theorem import_v2_empty_ring_counterexample :
+    let cut := V2.init.importF ⟨.ca, 7⟩ false [ss0]
+    cut.2.2 = .crash ∧ cut.1.rings ss0 = some Ring.empty ∧ (cut.1.step .list).2 = .err ∧
+    (cut.1.importF ⟨.none, 0⟩ false [ss0]).2.2 = .err ∧ (cut.1.importF ⟨.none, 0⟩ true [ss0]).2.2 = .ok := by decide +kernel
+
+/-- **migrate_key_is_generate.** The v1→v2 migration imports a key with `OpenKeyRingRW`, `AddKey`,
+`SetCurrent` – the model's step for one migrated key IS the generate/rotate step, so `v2_write_op_atomic`
+(ring generated before) and `v2_first_generation_counterexample` (new ring) apply to every migrated key. -/
+theorem migrate_key_is_generate (ft : Fault) (st : V2) (s : Slot) :
+    (V2.migrateF ft st 0 false [s]).1 = (st.stepF ft (.gen s)).1 := by
+  have hs : ft.shift 0 = ft := by cases ft; simp [Fault.shift]
+  simp only [V2.migrateF, hs]
+  generalize st.stepF ft (.gen s) = r
+  obtain ⟨st1, tr, out⟩ := r
+  cases out <;> rfl
+
+/-! ## a ring handle kept across a failed write -/
+
+/-- every handle write pops, when its sync fails, exactly the transactions it pushed -/
+theorem fact_v2_tx_push_pop :
+    KeystoreCrash.v2TxPushPop =
+      [("setCurrent", 1, 1), ("changeKeyState", 1, 1), ("addKey", 1, 1), ("destroyKey", 2, 2), ("importASN1", 1, 1)] := by decide
+
+/-- **v2_error_rollback (handle side).** A ring handle whose transaction log is empty has an empty log
+again after any `AddKey` / `SetCurrent` / `DestroyKey` – whatever fault hit the sync (error at any back-end
+call, including after the ring was replaced) and whether or not the operation was refused. Hence the next
+write through the same handle applies its own transactions only: nothing of a failed operation is ever
+written by a later one. (The model pops as many transactions as the regenerated table says; with the
+table as it is – `fact_v2_tx_push_pop` – that is as many as were pushed.) -/
+theorem v2_handle_error_rollback (ft : Fault) (s : Slot) (h : H2) (ops : List HOp) (hl : h.log = []) :
+    (H2.hops ft s h ops).1.log = [] := by
+  induction ops generalizing h with
+  | nil => exact hl
+  | cons op ops ih =>
+    simp only [H2.hops]
+    apply ih
+    apply H2.hop_log ft s h op hl
+    · cases op <;> rfl
+    · decide
+
+/-! ## the key-rotation tool (`cmd/acra-rotate`, file variant) -/
+
+/-- the order the model of the tool follows: per key id the new pair is generated in memory, per file
+read – re-encrypt – stat – write in place, and `saveRotatedKeys` after both loops; its error is not
+returned; nothing is saved when a key is generated -/
+theorem fact_rotate_tool_order :
+    KeystoreCrash.rotateFilesCalls =
+      ["1:getRotatedPublicKey", "2:ReadFile", "2:rotateAcrastruct", "2:Stat", "2:WriteFile", "0:saveRotatedKeys"] ∧
+    KeystoreCrash.rotateSaveErrorReturned = false ∧ KeystoreCrash.rotateKeySavedWhenGenerated = false := by decide
+
+/-- **rotate_tool_order_counterexample** (known finding `rotate-tool:data-rewritten-before-key-saved`).
+`rotate_tool_order` – "no point of the tool's run, cut anywhere, leaves data that can be decrypted neither
+with the old nor with the new key the keystore offers after restart" – is FALSE for the tool as it is. One
+key id, events `read 0, rewrite 0, …, save`:
+(1) crash right after the first rewrite (event 1): the file is under the new key, the keystore offers only
+the old one; (2) no crash at all – the second file cannot be read (event 2 fails): the tool returns an
+error without saving, the first file is lost; (3) the save itself fails (event 2 of a one-file run): the
+error is logged, the tool reports success, the file is lost. -/
+theorem rotate_tool_order_counterexample :
+    (let cut := Rotate.exec Rotate.codeVariant ⟨.ca, 1⟩ 0 .init (Rotate.codeEvents [(0, 1)])
+     cut.2 = .crash ∧ cut.1.files 0 0 = some 1 ∧ cut.1.offered 0 = [0]) ∧
+    (let cut := Rotate.exec Rotate.codeVariant ⟨.err, 2⟩ 0 .init (Rotate.codeEvents [(0, 2)])
+     cut.2 = .err ∧ cut.1.files 0 0 = some 1 ∧ cut.1.offered 0 = [0]) ∧
+    (let cut := Rotate.exec Rotate.codeVariant ⟨.err, 2⟩ 0 .init (Rotate.codeEvents [(0, 1)])
+     cut.2 = .ok ∧ cut.1.files 0 0 = some 1 ∧ cut.1.offered 0 = [0]) := by decide +kernel
+
+/-- **rotate_tool_order_partial** (the order that makes `rotate_tool_order` true). If the new key pair of
+an id is saved before the first file of that id is rewritten and files are replaced atomically, then for
+every file map (any key ids, any numbers of files), every fault mode and every cut, every data file can be
+decrypted with a key the keystore offers after restart – old files with the old key, which stays offered as
+a rotated key, rewritten files with the saved new key. This is the repair the known finding asks for; it is
+a statement about the model's alternative event order, not about the tool as it is. -/
+theorem rotate_tool_order_partial (clients : List (Nat × Nat)) (v : Rotate.Variant) (hv : v.atomicRewrite = true)
+    (ft : Fault) : (Rotate.exec v ft 0 .init (Rotate.eventsSavedFirst clients)).1.Safe :=
+  (Rotate.exec_ready v hv ft _ 0 .init (fun _ => false) Rotate.Inv.init (by intro c hc; cases hc)
+    (Rotate.ready_savedFirst clients _)).safe
+
 /-! ## non-vacuity -/
 
 /-- the freshness hypothesis holds initially and after a completed write -/
@@ -230,5 +364,25 @@ example :
     let st := ((V1.init (-1)).run [.gen ss0, .gen ss0]).1
     let fs' := (st.stepF ⟨.ca, 5⟩ (.gen ss0)).1.fs
     fs'.cur (privFile ss0) = some (.full 2) ∧ (fs'.old (privFile ss0)).map (·.2) = [.full 1, .full 2] := by decide +kernel
+
+/-- the complete, fault-free run of the tool as it is leaves everything decryptable (two key ids, three files) -/
+example :
+    let fin := Rotate.exec Rotate.codeVariant ⟨.none, 0⟩ 0 .init (Rotate.codeEvents [(0, 2), (1, 1)])
+    fin.2 = .ok ∧ fin.1.files 0 1 = some 1 ∧ fin.1.offered 0 = [1, 0] ∧ fin.1.files 1 0 = some 1 ∧ fin.1.offered 1 = [1, 0] := by decide +kernel
+
+/-- an instance of `import_atomic_per_key` where the fault bites: a torn write of the second file of a
+pair import – the private file is new, the public file still the old one, nothing is torn -/
+example :
+    let st := ((V1.init (-1)).run [.gen sp0]).1
+    let cut := st.importF ⟨.torn, 6⟩ [privFile sp0, pubFile sp0]
+    cut.2.2.2 = .crash ∧ cut.1.fs.cur (privFile sp0) = some (.full 2) ∧ cut.1.fs.cur (pubFile sp0) = some (.full 1) := by decide +kernel
+
+/-- a handle operation that fails in the middle: `DestroyKey` with an error at `Put` leaves the log empty and
+the stored ring untouched; the next `AddKey` through the same handle adds a key and destroys nothing -/
+example :
+    let st := (V2.init.run [.gen ss0, .gen ss0]).1
+    let r := (H2.open st ss0).map fun h0 => H2.hops ⟨.err, 2⟩ ss0 h0 [.destroy 1, .add]
+    (r.map fun p => (p.2, p.1.log, (p.1.x.st.rings ss0).map (·.keys.map (·.data)))) =
+      some ([.err, .ok], [], some [some 1, some 2, some 3]) := by decide +kernel
 
 end AcraModel.Props.C08
